@@ -711,6 +711,9 @@ package cache
 // object (C06); on success the value is written with that same context and returned; on failure the error is
 // cached iff FailedUpdateTTL > -1 (C05) and returned; cache_build once, cache_failed iff the builder failed (C18).
 
+// C05.build.fail.ttl: the failure is written to the failure cache under a context that carries no TTL of its own, so
+// it lives for that cache's TimeToLive - FailedUpdateTTL by C05.new.errttl, within the jitter by C10.write.* - and not
+// for the TTL the caller or the builder attached to the value (finding F23).
 //@ func (*Failover).doBuild
 //@   props C01 C02 C03 C05 C06 C18
 //@   replay failover
@@ -741,6 +744,7 @@ package cache
 //@       && metric(MetricDelete) == old(metric(MetricDelete))
 //@   ensures [C18.build.nostat] f.stat == nil ==> noMetric()
 //@   ensures [C05.build.errs.repok] (f.config.FailedUpdateTTL > -1 ==> repOK(f.Errors.shardedMap)) && errorsOnly(f)
+//@   oncall Write [C05.build.fail.ttl] ttlOf(callarg1) == 0
 //@   modifies @builder @backendwrite @stat @log @clock @errcache H|time.Duration|*
 
 // waitForValue: returns what the owner of the key lock published before closing the channel.
@@ -932,6 +936,7 @@ package cache
 //@       && metric(MetricDelete) == old(metric(MetricDelete))
 //@   ensures [C18.build.nostat] f.stat == nil ==> noMetric()
 //@   ensures [C05.build.errs.repok] (f.config.FailedUpdateTTL > -1 ==> repOK(f.Errors.shardedMapOf)) && errorsOnlyOf(f)
+//@   oncall Write [C05.build.fail.ttl] ttlOf(callarg1) == 0
 //@   modifies @builder @backendwriteof @stat @log @clock @errcacheof H|time.Duration|*
 
 //@ func (*FailoverOf[V]).waitForValue
@@ -1584,9 +1589,17 @@ package cache
 //@ def sHOf(j) := ghost(shof, sortPerm(j))
 //@ def sRankE(val) := isFunc(val, "(*syncMap).evictMostExpired$1")
 
+// Len is executed inside its callers (eviction) and also verified on its own (standalone): the result is the
+// number of keys Range handed out - by the assumed sync.Map contract each key present, once, expired or not.
 //@ func (*syncMap).Len
 //@   inline
+//@   flag standalone
+//@   flag serves C07
+//@   props C07
+//@   requires c != nil
 //@   range 1 invariant [C12.sm.len.inv] cnt == visitedCount() && cnt >= 0 && cnt < 281474976710657
+//@   ensures [C07.sm.len] result0 == rangeCount(1) && result0 >= 0
+//@   modifies G|iterated
 
 //@ func (*syncMap).evictLeast
 //@   inline
